@@ -30,6 +30,8 @@ fn main() {
         "C06" => verif_harness::props::c06::run(&cfg),
         "C14" => verif_harness::props::c14::run(&cfg),
         "C16" => verif_harness::props::c16::run(&cfg),
+        "C05" => verif_harness::props::c05::run(&cfg),
+        "STRUCT" => verif_harness::props::structs::run_model(&cfg),
         _ => {
             eprintln!("unknown property {prop}");
             std::process::exit(2);
